@@ -441,6 +441,9 @@ def rules(rep, facts):
     r5_from_slice(rep, facts)
     r6_map_protocol(rep, facts)
     r7_access_ends(rep, facts)
+    from .shared import presized_from_hint
+    R8 = rep.rule('C04/R8', 'no allocation is sized by an untrusted size_hint() (a huge claim aborts with "capacity overflow")', floor=1)
+    presized_from_hint(rep, R8, facts)
     # R2: the structural guards the allowlist reasons rely on
     from .rules_c12 import r3b_digit
     from .rules_c15 import r4_rendering
